@@ -458,7 +458,7 @@ __CPROVER_loop_invariant(g_copies == ((0 <= GF->parts.gidx && GF->parts.gidx < i
 __CPROVER_decreases((long)GF->parts.n - iter.pos)
 //@end
 
-//@harness h_GF_copy enforce=GreensFunction_init1 props=C01 min_obl=662 timeout=120 reach=2
+//@harness h_GF_copy enforce=GreensFunction_init1 props=C01,C17 min_obl=662 timeout=120 reach=2
 void h_GF_copy(void)
 {
   struct GreensFunction *gf, *src;
